@@ -187,6 +187,11 @@ func (c *ATConn) createNewTxOnExecIfNeed(ctx context.Context, f func() (types.Ex
 
 	ret, err := f()
 	if err != nil {
+		if tx != nil {
+			if rollbackErr := tx.Rollback(); rollbackErr != nil {
+				log.Errorf("conn at rollback error:%v", rollbackErr)
+			}
+		}
 		return nil, err
 	}
 
